@@ -1,14 +1,14 @@
 #!/bin/sh
-# usage: tools/verify_seed.sh <ID> [<worktree>]  — confirm a seeded change: with the patch the existing
-# suite passes and the demo fails; without it the demo passes. Works in the scratch worktree.
+# usage: tools/verify_seed.sh <ID> [<worktree>]  — confirm a seeded change in its scratch worktree:
+# with the patch the existing suite passes and the demo fails; without it the demo passes.
 ID="$1"; WT="${2:-/tmp/wt-$ID}"; OUT=/tmp/seed-out/$ID
 cd "$WT" || exit 2
 export CARGO_TARGET_DIR="$WT/target"
-git stash -q 2>/dev/null; git checkout -q -- . ; rm -f tests/seed_demo.rs
+git checkout -q -- . ; rm -f tests/seed_demo.rs
 git apply "$OUT/patch.diff" || { echo "patch does not apply"; exit 2; }
+echo "== with patch: existing suite (expected: all ok)"
+timeout 1500 cargo test --workspace --offline 2>&1 | grep -E "^test result|FAILED|panicked" | sort | uniq -c | head -6
 mkdir -p tests; cp "$OUT/seed_demo.rs" tests/seed_demo.rs
-echo "== with patch: existing suite"
-timeout 1200 cargo test --workspace --offline --lib --doc 2>&1 | grep -E "^test result|FAILED|panicked" | head -5
 echo "== with patch: demo (expected to FAIL)"
 timeout 900 cargo test --offline --test seed_demo 2>&1 | grep -E "^test result|^error" | head -3
 git checkout -q -- .
